@@ -177,8 +177,20 @@ func checkC11Pair(c VerPairCase) Outcome {
 	a, b := spell(c.Y, c.PY), spell(c.X, c.PX)
 	r := Satisfies(a, []string{b})
 	key := fmt.Sprintf("C11/behaviour/%s | %s", a, b)
-	for _, id := range []string{c.X, c.Y} {
-		if tb.MultiPosition(id) {
+	// A failure is charged to the recorded "id at two positions" finding only when it is the one
+	// that finding describes: the other id sits in a family that the first-match lookup can never
+	// reach for the duplicated id. Anything else involving such an id is an ordinary violation.
+	for _, pair := range [][2]string{{c.X, c.Y}, {c.Y, c.X}} {
+		id, other := pair[0], pair[1]
+		if !tb.MultiPosition(id) {
+			continue
+		}
+		first := tb.Positions(id)[0][0]
+		reachable := false
+		for _, p := range tb.Positions(other) {
+			reachable = reachable || p[0] == first
+		}
+		if !reachable {
 			key = "C11/dup/" + strings.TrimSuffix(id, "-or-later")
 		}
 	}
